@@ -386,9 +386,11 @@ pub fn k_vrank<V: Vec1View<Option<i32>>, const N: usize>(v: &V) {
 /// vpartition / varg_partition with *concrete* (k, sort, rev) per call: a symbolic choice makes the dynamic type behind
 /// the returned `Box<dyn TrustedLen>` symbolic and every `next()` expands into all pipelines (measured in C12:
 /// 150-400 s instead of 25 s). At most k+2 reads; the box is not dropped (virtual drop over every candidate).
-/// Every index yielded by varg_partition must be -1 or < N; the count contract is C09 / C12 business.
+/// Every index yielded by varg_partition must be -1 or < N, and the iterator yields exactly its announced trusted length
+/// (what the collectors size and expose their buffer from); that the length is k+1 is C09 / C12 business.
 pub fn k_argpartition<V: Vec1View<Option<i32>>, const N: usize>(v: &V, k: usize, sort: bool, rev: bool) {
     let mut it = v.varg_partition(k, sort, rev);
+    let announced = TrustedLen::len(&it);
     let mut c = 0;
     while c < k + 2 {
         match it.next() {
@@ -398,10 +400,13 @@ pub fn k_argpartition<V: Vec1View<Option<i32>>, const N: usize>(v: &V, k: usize,
         c += 1;
     }
     assert!(c <= k + 1, "varg_partition yields at most k+1 entries");
+    assert!(c == announced, "varg_partition yields exactly as many entries as its trusted length announces (every collected slot is written)");
     std::mem::forget(it);
 }
 pub fn k_vpartition<V: Vec1View<Option<i32>>, const N: usize>(v: &V, k: usize, sort: bool, rev: bool) {
     let mut it = v.vpartition(k, sort, rev);
+    // trusted collectors allocate `len()` slots, write what the iterator yields and expose all of them as initialised
+    let announced = TrustedLen::len(&it);
     let mut c = 0;
     while c < k + 2 {
         if it.next().is_none() {
@@ -410,6 +415,7 @@ pub fn k_vpartition<V: Vec1View<Option<i32>>, const N: usize>(v: &V, k: usize, s
         c += 1;
     }
     assert!(c <= k + 1, "vpartition yields at most k+1 entries");
+    assert!(c == announced, "vpartition yields exactly as many entries as its trusted length announces (every collected slot is written)");
     std::mem::forget(it);
 }
 pub fn k_quantile<V: Vec1View<Option<i32>>, const N: usize>(v: &V) {
@@ -494,6 +500,52 @@ pub fn num_all<V: Vec1View<f64>, V2: Vec1View<f64>, const N: usize>(a: &V, b: &V
     k_resid_mean::<V, V2, N>(a, b, w, mp);
     k_resid_std::<V, V2, N>(a, b, w, mp);
     k_resid_skew::<V, V2, N>(a, b, w, mp);
+}
+
+/// second series LONGER than the first (it passes the drivers' length assert): every unchecked index still has to stay
+/// below the length of the FIRST series and every output slot is written once (added after seeded change C10-m1)
+pub fn long2<const N: usize, const M: usize>() {
+    let xs: [i32; N] = kani::any();
+    let ys: [i32; M] = kani::any();
+    let v: Vec<i32> = xs.to_vec();
+    let v2: Vec<i32> = ys.to_vec();
+    let w = any_window::<N>(1);
+    let which: u8 = kani::any();
+    kani::assume(which < 6);
+    match which {
+        0 => { apply2_ret::<i32, _, _, N>(&v, &v2, w); },
+        1 => { apply2_out::<i32, _, _, N>(&v, &v2, w); },
+        2 => { idx2_ret::<i32, _, _, N>(&v, &v2, w); },
+        3 => { idx2_out::<i32, _, _, N>(&v, &v2, w); },
+        4 => { custom2_ret!(v, &v2, w, N); },
+        _ => { custom2_out!(v, &v2, w, N); },
+    }
+    kani::cover!(w >= N + 2, "window at least two longer than the first series");
+    if N >= 2 {
+        kani::cover!(w < N, "window shorter than the first series");
+    }
+}
+
+#[kani::proof]
+#[kani::stub(std::fmt::format, crate::util::fmt_stub)]
+#[kani::unwind(7)]
+pub fn c10_long2_n1() {
+    long2::<1, 3>();
+}
+
+#[kani::proof]
+#[kani::stub(std::fmt::format, crate::util::fmt_stub)]
+#[kani::unwind(8)]
+pub fn c10_long2_n2() {
+    long2::<2, 4>();
+}
+
+#[cfg(feature = "thorough")]
+#[kani::proof]
+#[kani::stub(std::fmt::format, crate::util::fmt_stub)]
+#[kani::unwind(9)]
+pub fn c10_long2_n3() {
+    long2::<3, 5>();
 }
 
 include!("c10_gen.rs");
